@@ -16,6 +16,7 @@ EXPLANATION = (
     "parsing, the bypass predicate being built on the same number parser the arms apply afterwards; (4) attribute values and text survive the reader -> writer round trip (escape balance, shared with C02/C03); "
     "(5) a failed-and-retried element leaves the depth counter intact (shared with C17), so valid documents are not rejected "
     "for their length."
+    " Also: the unit bypass predicate is built on the parser the arms apply afterwards."
 )
 TRUSTED = ["policy/spec/svg11_attributes.json (SVG 1.1 attribute vocabulary)"]
 ASSUMPTIONS = []
